@@ -5,7 +5,7 @@ PKG=$1; shift
 D=/tmp/gy-try
 for i in "$@"; do
   /verif/tools/scratch.sh $D >/dev/null
-  if [ "${FAMILY:-1}" = 2 ]; then desc=$(/verif/bin/mutgen2 -repo $D -pkg ./$PKG -apply $i); else desc=$(/verif/bin/mutgen -dir $D/$PKG -apply $i); fi
+  if [ "${FAMILY:-1}" != 1 ]; then desc=$(/verif/bin/mutgen2 -repo $D -pkg ./$PKG -family $FAMILY -apply $i); else desc=$(/verif/bin/mutgen -dir $D/$PKG -apply $i); fi
   out=$(/verif/bin/goyang-verif -repo $D -verif /verif -all -no-evidence 2>&1 | grep -aE "^[A-Z0-9.]+ \[(violation|undecided)\]|^VACUOUS|^BROKEN" | head -2 | cut -c1-170)
   if [ -z "$out" ]; then echo "MISSED   $i $desc"; else echo "DETECTED $i $desc :: $out"; fi
 done
